@@ -181,7 +181,12 @@ func (h *Handler) Handle(req, resp dhcpv6.DHCPv6) (dhcpv6.DHCPv6, bool) {
 
 				// If a length was requested, only give out prefixes of that length
 				// This is a bad heuristic depending on the allocator behavior, to be improved
-				if hintPrefixLen, _ := h.Prefix.Mask.Size(); hintPrefixLen != 0 {
+				hintPrefixLen := 0
+				if h.Prefix != nil {
+					// an IAPrefix option of length 0 is parsed into a nil Prefix
+					hintPrefixLen, _ = h.Prefix.Mask.Size()
+				}
+				if hintPrefixLen != 0 {
 					leasePrefixLen, _ := l.Prefix.Mask.Size()
 					if hintPrefixLen != leasePrefixLen {
 						continue
